@@ -1185,10 +1185,7 @@ void mc_explore(Run &r, const std::string &job)
 	if (job == "cxx") { r.require("accepted:cxx-source"); r.require("empty-sources"); }
 	if (job == "api") r.require("accepted:boundary");
 	r.require("sources_state_graph_closed");
-	struct timespec t0, t1; clock_gettime(CLOCK_MONOTONIC, &t0);
-	uint64_t tr0 = r.transitions;
 	dfs(r, [&](Ctx &x) { uint64_t i = x.choose(v.size()); process(r, v[i], i, 0); });
-	if (getenv("C19_TIME")) { clock_gettime(CLOCK_MONOTONIC, &t1); FILE *f = fopen(getenv("C19_TIME"), "a"); if (f) { fprintf(f, "%-14s %6zu sources %9llu transitions %7.1f s\n", job.c_str(), v.size(), (unsigned long long) (r.transitions - tr0), (t1.tv_sec - t0.tv_sec) + (t1.tv_nsec - t0.tv_nsec) * 1e-9); fclose(f); } }
 	flush_counters(r);
 }
 void mc_replay(Run &r, const std::string &job, const Vec &v)
